@@ -22,7 +22,7 @@ func init() {
 		ID:          "C06",
 		Level:       "other",
 		Run:         runC06,
-		Explanation: "Per-transition obligations on MVP-7.0, 7.1 and 8.0: R06.1 the per-core line state table is written only by the state setter (called only inside the completion closures handed out with a lock) and by the command-completion callback (to Invalid); R06.2 the transition table extracted from the read-lock / write-lock functions and the request builders equals the MSI table (read@I: shared lock, write-back from a Modified holder, then Shared; read@S: shared lock; read@M: exclusive lock; write@I: exclusive, write-back M / evict S, then Modified; write@S: exclusive, invalidate others, then Modified; write@M: exclusive); R06.3 a write-back snoop writes the line to the next level before removing it from L1 and before completing, an evict snoop removes then completes; R06.5 every per-line table is keyed through one alignment level and L1 insertions are presence-guarded; R06.7 the base a line is inserted under in a data cache comes from the alignment function of that cache's line size or from a resident line's boundary (lines are size-aligned); R06.8 a line is inserted in L1 only after a presence test of its base returned false (never two copies of one line); R06.11 the bytes read out of a cache are written to the next level at the address they were read at; R06.16 the flush of a controller returns its suspendable coroutines (read, write) to their start: an access abandoned by a flush must not be resumed by the next one (it would install a stale line and mark it Modified without the lock); R06.14 the per-line reader/writer lock (comp.Sem) equals its reference model (readers share, a writer excludes everybody, refusals change nothing); R06.15 the lock handed out for a line is the one stored in the table under the line's key; R06.13 every snoop job completes its command before reporting completion, done() raises the flag and runs the callback, and the callback removes the command from the table under its own key; R06.12 a controller waits for ALL the commands it sent to the other cores; R06.9 a line fill pads exactly the bytes outside the memory image (the index is compared with the image length itself); R06.10 a Modified holder of the line is always asked to write back and the request is among the pendings the requester waits for; R06.6 per-line lock counters cannot go negative (acquire/release kinds pair; recorded handles are released with the kind they were acquired with; flush deletes from the table it ranges over). The per-cycle invariants under all request interleavings are NOT decided. R06.17 the lock functions of the coherence layer either tell an access to wait or hand out the line lock they acquired for it (no proceed-response without a lock). R06.18 (MVP-8) the handler of a snoop command operates on the cache of the command's level: one cache per case, one cache per command constructor, different caches for the two constructors. R06.19 with several data caches, a presence test and the first cache operation it governs concern the same cache. R06.20 a per-line lock held while a cache is operated on is keyed at that cache's line size. R06.21 a line in the Modified state leaves a core's cache by the command whose handler writes it to the next level; a line in another state by one that does not. R06.22 the entry of an access coroutine resets and suspends only its own coroutine and forgets lock handles only from a table it records them in. R06.23 the read access of a cache controller takes the read lock of the line, the write access the write lock (kinds read off the request type and the states the lock function can leave).",
+		Explanation: "Per-transition obligations on MVP-7.0, 7.1 and 8.0: R06.1 the per-core line state table is written only by the state setter (called only inside the completion closures handed out with a lock) and by the command-completion callback (to Invalid); R06.2 the transition table extracted from the read-lock / write-lock functions and the request builders equals the MSI table (read@I: shared lock, write-back from a Modified holder, then Shared; read@S: shared lock; read@M: exclusive lock; write@I: exclusive, write-back M / evict S, then Modified; write@S: exclusive, invalidate others, then Modified; write@M: exclusive); R06.3 a write-back snoop writes the line to the next level before removing it from L1 and before completing, an evict snoop removes then completes; R06.5 every per-line table is keyed through one alignment level and L1 insertions are presence-guarded; R06.7 the base a line is inserted under in a data cache comes from the alignment function of that cache's line size or from a resident line's boundary (lines are size-aligned); R06.8 a line is inserted in L1 only after a presence test of its base returned false (never two copies of one line); R06.11 the bytes read out of a cache are written to the next level at the address they were read at; R06.16 the flush of a controller returns its suspendable coroutines (read, write) to their start: an access abandoned by a flush must not be resumed by the next one (it would install a stale line and mark it Modified without the lock); R06.14 the per-line reader/writer lock (comp.Sem) equals its reference model (readers share, a writer excludes everybody, refusals change nothing); R06.15 the lock handed out for a line is the one stored in the table under the line's key; R06.13 every snoop job completes its command before reporting completion, done() raises the flag and runs the callback, and the callback removes the command from the table under its own key; R06.12 a controller waits for ALL the commands it sent to the other cores; R06.9 a line fill pads exactly the bytes outside the memory image (the index is compared with the image length itself); R06.10 a Modified holder of the line is always asked to write back and the request is among the pendings the requester waits for; R06.6 per-line lock counters cannot go negative (acquire/release kinds pair; recorded handles are released with the kind they were acquired with; flush deletes from the table it ranges over). The per-cycle invariants under all request interleavings are NOT decided. R06.17 the lock functions of the coherence layer either tell an access to wait or hand out the line lock they acquired for it (no proceed-response without a lock). R06.18 (MVP-8) the handler of a snoop command operates on the cache of the command's level: one cache per case, one cache per command constructor, different caches for the two constructors. R06.19 with several data caches, a presence test and the first cache operation it governs concern the same cache. R06.20 a per-line lock held while a cache is operated on is keyed at that cache's line size. R06.21 a line in the Modified state leaves a core's cache by the command whose handler writes it to the next level; a line in another state by one that does not. R06.22 the entry of an access coroutine resets and suspends only its own coroutine and forgets lock handles only from a table it records them in. R06.23 the read access of a cache controller takes the read lock of the line, the write access the write lock (kinds read off the request type and the states the lock function can leave). R06.24 the result of an attempt to take a line lock is never discarded.",
 		Assumptions: []string{"request interleavings are not explored"},
 		Trusted:     []string{"go/types", "the MSI table in checker/c06.go", "address provenance engine"},
 	})
@@ -117,6 +117,8 @@ func runC06(r *Run) {
 	ruleWriteBackAddress(r, "R06.11")
 	r.floor("R06.22", 10)
 	ruleAccessOwnsItsBookkeeping(r, "R06.22")
+	r.floor("R06.24", 15)
+	ruleLockResultTested(r, "R06.24")
 	r.floor("R06.23", 6)
 	ruleAccessTakesItsLock(r, "R06.23")
 	r.floor("R06.21", 3)
